@@ -114,6 +114,7 @@ structure Conn where
   expectHs : List HsItem := []
   preds : List Pred := []         -- predictions for FramebufferUpdates not yet seen (oldest first)
   buf : Bytes := []
+  mute : Bool := false            -- peer closed / stream already reported broken: further bytes are not judged
   deriving Repr
 
 def Conn.tight24 (c : Conn) : Bool := c.depth == 24 && c.rmax == 255 && c.gmax == 255 && c.bmax == 255
